@@ -62,6 +62,13 @@ var c13Cases = []c13Case{
 	{"extend input In { z: Obj }", 0, ""},
 	{"extend enum En { null }", 0, ""},
 	{"extend enum __DirectiveLocation { true }", 0, ""},
+	// a violation followed by a valid directive use further on in the same definition
+	{"enum T1 { true maybe @deprecated }", 0, ""},
+	{"enum T1 { §§§ ok @deprecated }", 3, ""},
+	{"enum T1 { A @d(zz: 1) B @deprecated C @d(n: 1) }", 0, ""},
+	{"type T1 { §§§ : Int ok: Int @deprecated z: Int @d }", 3, ""},
+	{"type T1 { f(§§§ : Int): Int @d ok: Int @deprecated }", 3, ""},
+	{"type T1 { f: In g: Int @deprecated }", 0, ""},
 	// references
 	{"type T1 { f: ¤ }", 0, "Nope"},
 	{"type T1 { f(a: ¤): Int }", 0, "Nope"},
